@@ -19,6 +19,11 @@
 //	                     (sessions re-paired: whoever completes must report whom it REALLY talked to)
 //	          replay     a clean session is recorded, then one frame / a whole direction of a second session
 //	                     between the same processes is replaced by the recording
+//	          reuse      ONE Noise SessionTransport (WithSessionOptions called once; with / without Prologue,
+//	                     EarlyData handlers, DisablePeerIDCheck) serves a drawn sequence of 2-4 handshakes:
+//	                     inbound naming nobody, inbound naming a peer, outbound — each answered by the named
+//	                     peer or by an impostor with its own valid key. A decision of one handshake must not
+//	                     stick to the transport
 //	          byzantine  Mallory terminates the connection herself (byz_test.go: flynn/noise resp. crypto/tls
 //	                     driven directly) and presents a forged NoiseHandshakePayload / certificate
 //	upgrader  tptu.New + Upgrade on both ends, security lists [noise tls] | [tls noise] | [noise] | [tls] per
@@ -113,6 +118,7 @@
 //	tls: len(chain) != 1 relaxed to < 1                    -> tls-chain-length-accepted/*/chain-length-2
 //	tls: ConfigForPeer without Clone()                     -> honest-handshake-refused/tls/* (concurrent sessions of one transport)
 //	tls: LRU of verified extensions keyed by extension bytes (seeded) -> forged-credential-accepted/tls/{initiator,responder}/verified-credential-replayed
+//	noise: SessionTransport.SecureInbound("") sets i.disablePeerIDCheck for good (seeded) -> expected-peer-ignored/noise/{initiator,responder} (reuse kind)
 //	quic: hole punches keyed by address only (seeded)      -> quic-holepunch-returned-wrong-peer/transport, quic-holepunch-swallowed-inbound-connection/{swarm,transport}
 //	upgrader: SecureInbound called with "" instead of p    -> expected-peer-ignored/upgrader/responder
 //	swarm: both re-checks of RemotePeer() removed          -> dial-returned-wrong-peer/{noise,tls} (lax transport)
